@@ -17,7 +17,8 @@ c.ens("result-shape", lambda S_: And(
     z3.PrefixOf(z3.StringVal("[deep] "), sv(S_.new.lget(S_.result, 0))),
     Val.is_VRef(S_.new.lget(S_.result, 1)), S_.new.typeof(S_.new.lget(S_.result, 1)) == S_.cid("list"),
     S_.new.llen(S_.new.lget(S_.result, 1)) >= 0, S_.elems(S_.new.lget(S_.result, 1), OBJ("WatchResult", inv=False)),
-    Val.is_VRef(S_.new.lget(S_.result, 2)), S_.new.typeof(S_.new.lget(S_.result, 2)) == S_.cid("dict")))
+    # the variables collected for the fields: a table of its own (never the snapshot's)
+    S_.created_during_call(S_.new.lget(S_.result, 2)), S_.new.typeof(S_.new.lget(S_.result, 2)) == S_.cid("dict")))
 
 from pyvc.core import LogEntry, SymCallable
 from pyvc.contract import extern
